@@ -88,6 +88,8 @@ macro_rules! parts {
 
 static SYS: LockStep = LockStep { property: "C17", probes: true, seed: None };
 
+static SYS_MODES: LockStep = LockStep { property: "C17", probes: false, seed: None };
+
 pub fn run(ctx: &Ctx) -> Report {
     let mut rep = Report::new();
     let p = parts!(ctx.tier, &SYS);
@@ -95,6 +97,7 @@ pub fn run(ctx: &Ctx) -> Report {
     if ctx.tier == Tier::Quick {
         run_part(ctx, &mut rep, &shallow_part(ctx.tier));
     }
+    run_part(ctx, &mut rep, &super::sweep::mode_part(&SYS_MODES, ctx.tier));
     rep.rule = "lock-step BFS of (real Vt, reference terminal keeping one optional saved context per screen) over the four save and four restore spellings (7- and 8-bit), cursor placement incl. the wrap-pending column, pens, DECOM/DECAWM toggles, margins, 47/1047/1049 switches, DECSTR, resizes; after every transition the cursor, pen, origin and auto-wrap mode and BOTH saved contexts (hook) are compared; after a resize only 'inside the screen' is required of a restored position".into();
     rep.assumptions = vec!["R6: DECSTR and RIS discard the saved context of the showing screen / both screens".into()];
     rep
@@ -104,6 +107,9 @@ pub fn replay(ctx: &Ctx, v: &Value) -> bool {
     let tier = if v["tier"] == "thorough" { Tier::Thorough } else { Tier::Quick };
     if v["part"] == "save-restore-lockstep-3x3" {
         return replay_part(ctx, &shallow_part(Tier::Quick), v);
+    }
+    if v["part"] == "mode-list-shapes" {
+        return replay_part(ctx, &super::sweep::mode_part(&SYS_MODES, tier), v);
     }
     let p = parts!(tier, &SYS);
     replay_part(ctx, &p, v)
